@@ -57,6 +57,34 @@ class NoneV:
 def A(x): return Poly.atom(x)
 
 
+class Chk:
+    """the Option produced by checked arithmetic on usize values: Some(v) with v exact, or None"""
+    def __init__(s, v): s.v = v
+    def __repr__(s): return "Chk(%r)" % (s.v,)
+
+
+def _closure_diverges(f, fn, t, body):
+    """`opt.unwrap_or_else(|| panic!(..))`: the closure handed over can only panic"""
+    try:
+        from .dfx import Dfx, strip, walk
+        from .facts import Body
+        bb = f.by_id.get(body["id"]) if isinstance(body, dict) else body
+        if bb is None or len(t["args"]) < 2:
+            return False
+        e = strip(Dfx(bb).expr(t["args"][1]))
+        for x in walk(e):
+            if isinstance(x, tuple) and x[0] == "agg" and x[1] == "closure" and len(x) > 3:
+                cid = x[3]
+                cb = f.by_id.get(cid)
+                if cb is not None:
+                    rets = [1 for bl in cb.blocks if bl["term"] and bl["term"]["k"] == "return" and not bl["cleanup"]]
+                    reach = cb.reachable(0)
+                    return not any(cb.blocks[i]["term"] and cb.blocks[i]["term"]["k"] == "return" for i in reach)
+        return False
+    except Exception:
+        return False
+
+
 class Subst:
     """facts as substitutions over non-negative atoms.  Facts are kept as a list and solved on demand: equalities first,
     then relations between two or more program atoms (x <= y + k  ->  y := x + k + slack), then bounds of a single atom."""
@@ -481,6 +509,11 @@ class Sym:
                 if getattr(s, "in_loop", None) is None:
                     P.pre_moves.append(mv)
             return [(P, Unk("elem"))]
+        if re.match(r"^core::num::<impl usize>::checked_(add|mul|sub)$", opath) and len(args) == 2 and all(isinstance(x, Poly) for x in args):
+            # Some(exact result) or None: every consumer below either takes the payload or leaves on None
+            return [(P, Chk(args[0] + args[1] if name == "checked_add" else (args[0] * args[1] if name == "checked_mul" else args[0] - args[1])))]
+        if name in ("unwrap", "expect", "unwrap_unchecked", "unwrap_or_else") and isinstance(a0v, Chk) and (name != "unwrap_or_else" or _closure_diverges(s.f, fn, t, s.b)):
+            return [(P, a0v.v)]
         if opath == "core::mem::size_of" and not t["args"]:
             return [(P, A("SIZEOF"))]       # the element size: `if mem::size_of::<T>() == 0 { .. }` forks on it like on any value
         if re.match(r"^core::ptr::(mut_ptr|const_ptr)::<impl \*(mut|const) T>::(add|sub|offset|wrapping_add|wrapping_sub)$", opath) and isinstance(a0v, Ptr) and isinstance(args[1], Poly):
@@ -527,7 +560,13 @@ class Sym:
             if name in ("reserve", "reserve_exact") and isinstance(args[1], Poly):
                 P.cap = (P.vlen if P.vlen is not None else A("L")) + args[1]
                 return [(P, Tup([]))]
-            if name in ("capacity",): return [(P, P.cap if P.cap is not None else Unk())]
+            if name in ("capacity",):
+                if P.cap is None:
+                    # an unknown capacity that holds at least the current length: `if new_len > v.capacity() { reserve }` then tells
+                    # the skipping edge that the room is there
+                    P.cap = A("CAP")
+                    P.sub.add_ge(A("CAP") - (P.vlen if P.vlen is not None else A("L")), "capacity >= len")
+                return [(P, P.cap)]
         if isinstance(a0v, Obj) and a0v.kind == "TooDee":
             if name == "reserve" and isinstance(args[1], Poly):
                 P.cap = (P.vlen if P.vlen is not None else A("L")) + args[1]
